@@ -441,3 +441,40 @@ def edge_facts(fn):
             for atom, val in implied_atoms(c, k == 0):
                 out.append((b.id, k, atom, val))
     return out
+
+
+
+def predicate_calls(fn, prog):
+    """branches of fn on the result of a boolean helper defined in the same file:
+    [(block, edge index on which the helper returned true, helper Function, call node)]"""
+    out = []
+    for b in fn.blocks.values():
+        if not b.term or len(b.succs) != 2:
+            continue
+        c = fn.cond(b.id)
+        if c is None:
+            continue
+        c = resolve(fn, c, (b.id, len(b.elems)))
+        neg = 0
+        while c is not None and c.get("k") == "un" and c.get("op") == "!":
+            c, neg = c["e"], neg ^ 1
+        if c is None or c.get("k") != "call" or not c.get("fn"):
+            continue
+        h = prog.resolve(fn, c["fn"])
+        if h is None or h.cfg_failed or h.file != fn.file or h.ret not in ("bool", "_Bool", "int"):
+            continue
+        out.append((b.id, 0 ^ neg, h, c))
+    return out
+
+
+def returned_atoms(h):
+    """what holds when the boolean helper h returns true: [(atom, bool)] collected from `return <formula>` sites (a
+    `return true` contributes nothing, a comparison contributes itself)"""
+    out = []
+    for s in h.sites():
+        if s.node.get("k") == "ret" and s.node.get("e") is not None:
+            e = resolve(h, s.node["e"], (s.b, s.i))
+            if const_of(e) is not None:
+                continue
+            out += implied_atoms(e, True)
+    return out
